@@ -361,8 +361,98 @@ def fuzz_enum(tier):
     return [dict(seed=1000 + i, runs=runs, wall=300 if tier == "quick" else 2400) for i in range(k)]
 
 
+# ------------------------------------------------------------------ API harness under ASan/UBSan
+# (prop, sub) pairs whose generators are borrowed: every API-level sub-check that needs only the shim
+API_SUBS = [("C01", "sum"), ("C01", "colsum"), ("C02", "shift"), ("C02", "poly"), ("C02", "rot"), ("C03", "api"), ("C04", "api"),
+            ("C06", "conv"), ("C07", "parseval"), ("C08", "maps"), ("C09", "norm"), ("C09", "moments"), ("C09", "isolation"),
+            ("C09", "copy"), ("C13", "roundtrip"), ("C15", "blob"), ("C15", "ingrid"), ("C16", "shape"), ("C16", "scaling"),
+            ("C16", "causal"), ("C16", "factory"), ("C18", "history"), ("C19", "zeroamp"), ("C19", "recorded"),
+            ("C20", "precedence"), ("C20", "alias")]
+API_N = {"quick": {"C03": 40, "C04": 8, "C16": 300, "default": 800}, "thorough": {"C03": 400, "C04": 80, "C16": 3000, "default": 12000}}
+_LIBASAN = []
+
+
+def libasan():
+    if not _LIBASAN:
+        # libstdc++ is preloaded too: ASan resolves __cxa_throw when it initialises, i.e. before ctypes loads the first C++ library
+        _LIBASAN.append(" ".join(subprocess.run(["g++", "-print-file-name=" + l], stdout=subprocess.PIPE, text=True).stdout.strip()
+                                 for l in ("libasan.so", "libstdc++.so.6")))
+    return _LIBASAN[0]
+
+
+def run_apisan(case):
+    import json
+    import sys
+    wd = cli.scratch("c17a")
+    cur = os.path.join(wd, "current.json")
+    job = dict(prop=case["prop"], sub=case["sub"], seed=case["seed"], n=case["n"], curfile=cur, wall=case.get("wall", 1e9),
+               wid=case.get("wid", 100))
+    if case.get("inner") is not None:
+        job["inner"] = case["inner"]
+    jf = os.path.join(wd, "job.json")
+    with open(jf, "w") as f:
+        json.dump(job, f)
+    verif = os.path.dirname(os.path.dirname(os.path.abspath(__file__)))
+    env = dict(os.environ, VERIF_SHIM=os.environ["VERIF_SHIMSAN"], LD_PRELOAD=libasan(), PYTHONPATH=verif,
+               ASAN_OPTIONS="detect_leaks=0:abort_on_error=0:exitcode=66:allocator_may_return_null=1",
+               UBSAN_OPTIONS="print_stacktrace=1:halt_on_error=1:exitcode=67")
+    try:
+        p = subprocess.run([sys.executable, "-m", "vlib.apisan", jf], cwd=wd, env=env, stdout=subprocess.PIPE, stderr=subprocess.PIPE,
+                           timeout=case.get("wall", 1e9) + 600, stdin=subprocess.DEVNULL)
+    except subprocess.TimeoutExpired:
+        return Outcome(True, False, ["apisan_timeout"], discard=True)
+    out = p.stdout.decode(errors="replace")
+    err = p.stderr.decode(errors="replace")
+    m = re.search(r"APISAN-DONE (\d+)", out)
+    cls = ["apisan", "apisan_%s_%s" % (case["prop"], case["sub"])]
+    if p.returncode == 0 and m:
+        return Outcome(True, True, cls, metrics={"apisan_cases:%s:%s:%d" % (case["prop"], case["sub"], case["seed"]): int(m.group(1))})
+    sig = signature(err)
+    if sig is None and p.returncode < 0:
+        sig = "c17:api:signal%d" % (-p.returncode)
+    if sig is None:
+        # python-level failure of the child: a harness problem, never a violation
+        raise RuntimeError("apisan child failed without a sanitizer report (rc=%s): %s" % (p.returncode, err[-1500:]))
+    sig = sig.replace("c17:", "c17:api:", 1) if not sig.startswith("c17:api:") else sig
+    inner = None
+    try:
+        inner = json.load(open(cur))
+    except Exception:
+        pass
+    if case.get("inner") is None:
+        case["inner"] = inner
+    lines = [l for l in err.splitlines() if SAN_RE.search(l) or FRAME_RE.search(l)][:8]
+    return Outcome(False, True, cls, "memory error / undefined behaviour (%s) in the API harness while running a generated case of %s/%s: %s\n  %s" %
+                   (sig, case["prop"], case["sub"], json.dumps(inner)[:600], "\n  ".join(lines)), sig=sig)
+
+
+def apisan_enum(tier):
+    out = []
+    for k, (prop, sub) in enumerate(API_SUBS):
+        n = API_N[tier].get(prop, API_N[tier]["default"])
+        shards = 1 if tier == "quick" else 4
+        for j in range(shards):
+            out.append(dict(prop=prop, sub=sub, seed=7000 + 100 * k + j, n=max(1, n // shards), wall=300 if tier == "quick" else 2400,
+                            wid=100 + 4 * k + j))
+    return out
+
+
+def finalize(cov, agg, tier):
+    g = agg.get("apisan")
+    if g is not None:
+        per = {}
+        for k, v in g["metrics"].items():
+            if k.startswith("apisan_cases:"):
+                _, prop, sub, _ = k.split(":")
+                per["%s/%s" % (prop, sub)] = per.get("%s/%s" % (prop, sub), 0) + int(v)
+        cov["apisan_generated_cases_executed_under_asan_ubsan"] = dict(total=sum(per.values()), per_borrowed_subcheck=per)
+        cov["per_subcheck"]["apisan"]["max_observed"] = {}
+
+
 def subs(tier):
-    return [Sub("fuzz", st.just({}), run_fuzz, quick=1, thorough=1, needs=("fuzz",), enum=fuzz_enum,
+    return [Sub("apisan", st.just({}), run_apisan, quick=1, thorough=1, needs=("shimsan",), enum=apisan_enum,
+                max_wall={"quick": 500, "thorough": 3200}),
+            Sub("fuzz", st.just({}), run_fuzz, quick=1, thorough=1, needs=("fuzz",), enum=fuzz_enum,
                 max_wall={"quick": 400, "thorough": 3000}),
             Sub("sanitizer", cases(), run_case, quick=400, thorough=12000, needs=("san", "h5x"), shrink_budget=60),
             Sub("valgrind", cases(tiny=True), run_valgrind, quick=24, thorough=400, needs=("rel", "h5x"), shrink_budget=6,
